@@ -504,8 +504,8 @@ func checkHashcat(line string, nt [16]byte, user, domain string, sc, cc [8]byte,
 	checkV2Response(e, append(append([]byte{}, proof...), blob...), nt, f[0], f[2], sc, cc, cs)
 }
 
-var fixedUsers = []string{"user", "User", "USER", "", "Üser", "пользователь", "ΑΒΓδ", "用户", "𐐨𐐩user", "Administrator"}
-var fixedDomains = []string{"Domain", "DOMAIN", "domain", "", "corp.Example.com", "Домен", "δομή", "域", "𐐀𐐨", "ÉCOLE"}
+var fixedUsers = []string{"user", "User", "USER", "", "Üser", "пользователь", "ΑΒΓδ", "用户", "𐐨𐐩user", "Administrator", "100%", "%s%d", "a%%b%x", "u\uFFFDser"}
+var fixedDomains = []string{"Domain", "DOMAIN", "domain", "", "corp.Example.com", "Домен", "δομή", "域", "𐐀𐐨", "ÉCOLE", "dom%v", "%!s(MISSING)", "d\uFFFDm"}
 
 func ntlmv2All() {
 	rng := r.Rand("ntlmv2")
